@@ -1,6 +1,6 @@
 From Coq Require Import List String Ascii Arith Bool Lia.
 Import ListNotations.
-From DV Require Import Docs.Model.
+From DV Require Import gen.Tables Docs.Model.
 Open Scope string_scope.
 Local Notation length := List.length (only parsing).
 
@@ -57,30 +57,25 @@ Qed.
 Lemma append_empty_r (s : string) : s ++ "" = s.
 Proof. induction s as [|c s IH]; cbn; [reflexivity|rewrite IH; reflexivity]. Qed.
 
-Lemma members_strict_agree t ms : need t - 1 <= length ms -> members_part_strict t ms = Some (members_part t ms).
+Lemma members_strict_sound t ms m : members_part_strict t ms = Some m -> members_part t ms = m.
 Proof.
-  intros H. unfold members_part_strict, members_part.
-  destruct (anchor t) as [a|] eqn:Ha; [|reflexivity].
-  destruct ms as [|m rest].
-  - exfalso. destruct t; cbn in Ha; try discriminate; cbn in H; lia.
-  - destruct (is_evf t) eqn:He; [|rewrite append_empty_r; reflexivity].
-    destruct rest as [|f rest']; [|reflexivity].
-    exfalso. destruct t; cbn in He; try discriminate. cbn in H. lia.
+  unfold members_part_strict, members_part. destruct (anchor t) as [a|]; [|intros H; inversion H; reflexivity].
+  destruct ms as [|x rest]; [discriminate|].
+  destruct (is_evf t).
+  - destruct rest as [|f rest']; [discriminate|]. intros H; inversion H; reflexivity.
+  - intros H; inversion H. rewrite append_empty_r. reflexivity.
 Qed.
 
-(* ... and the repair changes nothing for paths that are long enough for their kind *)
-Lemma repair_is_conservative g l :
-  need (l_typ l) <= length (l_path l) -> gen_url_unrepaired g l = gen_url g l.
+(* ... and the repair changes nothing wherever the old generator produced a URL at all (whatever the per-kind tables are) *)
+Lemma repair_is_conservative g l u : gen_url_unrepaired g l = Some u -> gen_url g l = Some u.
 Proof.
-  intros H. unfold gen_url_unrepaired, gen_url.
-  destruct (l_path l) as [|c p] eqn:Hp; [reflexivity|].
-  destruct (Nat.ltb_spec (length (c :: p)) (need (l_typ l))) as [Hlt|_]; [lia|].
-  destruct (skipn (length (c :: p) - need (l_typ l)) (c :: p)) as [|item ms] eqn:Hs; [reflexivity|].
-  assert (Hlen : length (item :: ms) = need (l_typ l)).
-  { rewrite <- Hs, skipn_length. lia. }
-  cbn [length] in Hlen.
-  rewrite members_strict_agree by lia.
-  destruct (page_prefix (l_typ l)); reflexivity.
+  unfold gen_url_unrepaired, gen_url.
+  destruct (l_path l) as [|c p] eqn:Hp; [discriminate|].
+  destruct (Nat.ltb (length (c :: p)) (need (l_typ l))); [discriminate|].
+  destruct (skipn (length (c :: p) - need (l_typ l)) (c :: p)) as [|item ms] eqn:Hs; [auto|].
+  destruct (page_prefix (l_typ l)) as [pre|]; [|discriminate].
+  destruct (members_part_strict (l_typ l) ms) as [m|] eqn:Hm; [|discriminate].
+  apply members_strict_sound in Hm. rewrite Hm. auto.
 Qed.
 
 (* what the URL is, stated on the split path rather than on a computed depth: modules, then the item's page, then the
